@@ -7,12 +7,16 @@ Inductive case :=
 | CPhylipWrite (w : Z) (recs : list rec)
 | CPamlWrite (w : Z) (recs : list rec)
 | CGdeWrite (w : Z) (recs : list rec)
+| CPhylipILWrite (w : Z) (recs : list rec)       (* the interleaved PHYLIP rendering (model only; input for the parsers) *)
 | CParse (which : Z) (text : str)                (* 0 fasta strict | 1 fasta non-strict | 2 fasta bytes |
                                                     3 gde strict | 4 gde non-strict | 5 phylip | 6 paml |
                                                     7 fasta bytes, source variant "split on newline+'>'" *)
 | CSplit (text : str)                            (* text.splitlines() *)
 | CIter (n : Z) (text : str)                     (* iter_splitlines(path, chunk_size=n) *)
 | CStream (which : Z) (n : Z) (text : str)        (* parser(iter_splitlines(path, chunk_size=n)) for the line-based parsers *)
+| CGb (which : Z) (text : str)                   (* GenBank: 0 MinimalGenbankParser(text.splitlines()) | 1 minimal_parser(bytes), pinned |
+                                                    2 minimal_parser(bytes), source variant that strips records *)
+| CGbStream (n : Z) (text : str)                 (* MinimalGenbankParser(iter_splitlines(path, chunk_size=n)) *)
 | CRound (fmt : Z) (w : Z) (recs : list rec).    (* parser_of_loader(writer(recs)) : 0 fasta | 1 phylip | 2 paml | 3 gde |
                                                     4 fasta with the bytes parser variant 7 *)
 
@@ -35,6 +39,14 @@ Definition parse_text (which : Z) (text : str) : val :=
   else if which =? 7 then vrecs (bytes_parser_fixed text)
   else match parse_lines which (py_splitlines text) with Some v => v | None => VN end.
 
+Definition vopt (o : option str) : val := match o with Some s => VS s | None => VN end.
+Definition vgb (r : gb_res) : val :=
+  match r with
+  | GRecs l => VL (map (fun p => VL [vopt (fst p); vopt (snd p)]) l)
+  | GErr c => VE c
+  | GUnsup => VN
+  end.
+
 Definition run_case (c : case) : val :=
   match c with
   | CFastaWrite recs => VS (fasta_write recs)
@@ -42,12 +54,18 @@ Definition run_case (c : case) : val :=
   | CPhylipWrite w recs => if w <=? 0 then VE 2 else VS (phylip_write (Z.to_nat w) recs)
   | CPamlWrite w recs => if w <=? 0 then VE 2 else VS (paml_write (Z.to_nat w) recs)
   | CGdeWrite w recs => if w <=? 0 then VE 2 else VS (gde_write (Z.to_nat w) recs)
+  | CPhylipILWrite w recs => if w <=? 0 then VE 2 else VS (phylip_interleaved_write (Z.to_nat w) recs)
   | CParse which text => parse_text which text
   | CSplit text => VL (map VS (py_splitlines text))
   | CIter n text => if n <=? 0 then VE 2 else VL (map VS (iter_splitlines (chunks_of (Z.to_nat n) text)))
   | CStream which n text =>
       if n <=? 0 then VE 2
       else match parse_lines which (iter_splitlines (chunks_of (Z.to_nat n) text)) with Some v => v | None => VN end
+  | CGb which text =>
+      if which =? 0 then vgb (gb_lines_parser (py_splitlines text))
+      else vgb (gb_bytes_parser (which =? 2) text)
+  | CGbStream n text =>
+      if n <=? 0 then VE 2 else vgb (gb_lines_parser (iter_splitlines (chunks_of (Z.to_nat n) text)))
   | CRound fmt w recs =>
       if w <=? 0 then VE 2 else
       let wn := Z.to_nat w in
